@@ -115,3 +115,19 @@ Example C05_hypotheses_satisfiable :
   /\ res_map (fun q => rows_of (abs q)) (m_run sample_col sample_history)
      = Ok [ Some [[VInt 1; VInt 2]; [VNull; VTok 3]]; Some [[VInt 7]; [VTok 9]] ].
 Proof. split; [reflexivity|]. split; [reflexivity|]. vm_compute. reflexivity. Qed.
+
+(* an offered table becomes a row by field NAME: the order of its columns does not matter (Box.v); boxing by position is
+   another function *)
+From Coq Require Import Permutation.
+From NP Require Import Box Proofs_Box.
+Theorem C05_box_order_irrelevant : forall fields (t t' : table), Permutation t t' -> m_box fields t = m_box fields t'.
+Proof. exact box_order_irrelevant. Qed.
+Print Assumptions C05_box_order_irrelevant.
+Theorem C05_box_any_order : forall fields cols (t : table), NoDup fields -> length cols = length fields ->
+  Permutation t (combine fields cols) -> m_box fields t = Ok cols.
+Proof. exact box_any_order. Qed.
+Print Assumptions C05_box_any_order.
+Theorem C05_box_positional_refuted : exists fields t t',
+  Permutation t t' /\ m_box fields t = m_box fields t' /\ m_box_positional fields t <> m_box_positional fields t'.
+Proof. exact box_positional_refuted. Qed.
+Print Assumptions C05_box_positional_refuted.
